@@ -37,7 +37,7 @@ def finish(run, name, out, tpath, kind, ops_file=None, table="BuiltinTable", pre
 def check(run):
     thorough = run.tier == "thorough"
     run.rules.append("leg M: for every tree the Pratt machine returns on (a) all token strings <= 4 tokens over the operator alphabet, (b) all ordered pairs of built-in "
-                     "infix operators in 6 shapes, (c) 18 decorations over representative pairs%s: RefParse(Render(t)) = t and Render idempotent "
+                     "infix operators in 6 shapes, (c) 20 decorations over representative pairs%s: RefParse(Render(t)) = t and Render idempotent "
                      "(validates where parentheses are needed); leg R: each such program parsed by the real parser, expr() re-parsed (must equal), "
                      "rendered again (must be the same string), and the token sequence of expr() given to TLC: RefParse(tokens) must be the tree; "
                      "non-trivial = tree with at least two operator tokens" % (", (d) all triples over representatives" if thorough else ""))
